@@ -402,7 +402,11 @@ func (e *Exec) run(st *State, blk *ssa.BasicBlock, idx int, stops []*ssa.BasicBl
 			}
 			fr.Visits[blk.Index]++
 			if fr.Visits[blk.Index] > e.unroll {
-				e.issues = append(e.issues, Issue{"unwind", fmt.Sprintf("loop bound %d exceeded at %s block %d (%s)", e.unroll, fr.Fn, blk.Index, e.prog.Fset.Position(t.Pos()))})
+				kind := "unwind"
+				if e.conc != nil || e.cfg["unwind"] == "assume" {
+					kind = "bound" // stated bound: executions needing more rounds of this loop are outside the claim
+				}
+				e.issues = append(e.issues, Issue{kind, fmt.Sprintf("loop bound %d exceeded at %s block %d (%s)", e.unroll, fr.Fn, blk.Index, e.prog.Fset.Position(t.Pos()))})
 				return nil
 			}
 			e.forks++
